@@ -1,25 +1,487 @@
 package main
 
 import (
+	"encoding/json"
+	"flag"
 	"fmt"
 	"os"
+	"path/filepath"
+	"sort"
+	"strconv"
+	"strings"
+	"sync"
+	"time"
 
-	"golang.org/x/tools/go/packages"
 	"golang.org/x/tools/go/ssa"
-	"golang.org/x/tools/go/ssa/ssautil"
 )
 
+type KnownFinding struct {
+	Property    string          `json:"property"`
+	Obligation  string          `json:"obligation"`
+	WhatFails   string          `json:"what_fails"`
+	ReplayInput json.RawMessage `json:"replay_input,omitempty"`
+	Status      string          `json:"status"`
+}
+
+type KnownFindings struct {
+	Findings []KnownFinding `json:"findings"`
+	Fixed    []string       `json:"fixed"`
+}
+
 func main() {
-	cfg := &packages.Config{Mode: packages.LoadAllSyntax, Dir: "/repo", BuildFlags: []string{"-tags=verif"}}
-	pkgs, err := packages.Load(cfg, os.Args[1:]...)
-	if err != nil {
-		panic(err)
+	if len(os.Args) < 2 {
+		fmt.Fprintln(os.Stderr, "usage: govc check|dumpssa|specs ...")
+		os.Exit(2)
 	}
-	prog, spkgs := ssautil.AllPackages(pkgs, ssa.InstantiateGenerics*0)
-	prog.Build()
-	for _, p := range spkgs {
-		if p != nil {
-			fmt.Println(p.Pkg.Path(), len(p.Members))
+	switch os.Args[1] {
+	case "check":
+		os.Exit(cmdCheck(os.Args[2:]))
+	case "dumpssa":
+		cmdDump(os.Args[2:])
+	default:
+		fmt.Fprintln(os.Stderr, "unknown command")
+		os.Exit(2)
+	}
+}
+
+func cmdDump(args []string) {
+	fs := flag.NewFlagSet("dumpssa", flag.ExitOnError)
+	repo := fs.String("repo", "/repo", "")
+	verif := fs.String("verif", "/verif", "")
+	fs.Parse(args)
+	pkg, name := fs.Arg(0), fs.Arg(1)
+	eng, err := NewEngine(*repo, *verif, []string{pkg})
+	if err != nil {
+		fmt.Fprintln(os.Stderr, err)
+		os.Exit(2)
+	}
+	fn := eng.findFunc(&FuncSpec{Pkg: pkg, Name: name})
+	if fn == nil {
+		fmt.Fprintln(os.Stderr, "not found")
+		os.Exit(1)
+	}
+	fn.WriteTo(os.Stdout)
+	for _, af := range fn.AnonFuncs {
+		af.WriteTo(os.Stdout)
+	}
+}
+
+type fnReport struct {
+	Name       string   `json:"name"`
+	Obligs     int      `json:"obligations"`
+	Discharged int      `json:"discharged"`
+	Fatal      []string `json:"outside_subset,omitempty"`
+	Inlined    []string `json:"inlined_callees,omitempty"`
+	Opaque     []string `json:"opaque_calls,omitempty"`
+	Uses       []string `json:"assumed_contracts_used,omitempty"`
+}
+
+func cmdCheck(args []string) int {
+	fs := flag.NewFlagSet("check", flag.ExitOnError)
+	repo := fs.String("repo", "/repo", "repository root")
+	verif := fs.String("verif", "/verif", "verification root")
+	prop := fs.String("prop", "", "property id")
+	tier := fs.String("tier", "quick", "quick|thorough")
+	only := fs.String("only", "", "only obligations containing this substring")
+	dump := fs.String("dump", "", "directory to dump queries into")
+	verbose := fs.Bool("v", false, "verbose")
+	noEvidence := fs.Bool("no-evidence", false, "do not write the evidence file")
+	fs.Parse(args)
+	t0 := time.Now()
+	seed := 0
+	if s := os.Getenv("VERIF_SEED"); s != "" {
+		seed, _ = strconv.Atoi(s)
+	}
+	timeoutS := 20
+	if *tier == "thorough" {
+		timeoutS = 90
+	}
+	engErr := func(f string, a ...any) int {
+		fmt.Printf("ENGINE-ERROR property=%s %s\n", *prop, fmt.Sprintf(f, a...))
+		return 2
+	}
+	// 1. specs -> functions of this property
+	specs, err := LoadAllSpecs(*repo, *verif, "")
+	if err != nil {
+		return engErr("loading contracts: %v", err)
+	}
+	var targets []*FuncSpec
+	pkgSet := map[string]bool{}
+	for _, f := range specs.Funcs {
+		if f.Kind != "func" {
+			continue
 		}
+		for _, p := range f.Props {
+			if p == *prop {
+				targets = append(targets, f)
+				pkgSet[f.Pkg] = true
+			}
+		}
+	}
+	var lemmas []*Lemma
+	for _, l := range specs.Lemmas {
+		for _, p := range l.Props {
+			if p == *prop {
+				lemmas = append(lemmas, l)
+				if l.Pkg != "" {
+					pkgSet[l.Pkg] = true
+				}
+			}
+		}
+	}
+	sort.Slice(targets, func(i, j int) bool { return specKey(targets[i].Pkg, targets[i].Name) < specKey(targets[j].Pkg, targets[j].Name) })
+	if len(targets) == 0 && len(lemmas) == 0 {
+		return engErr("no contracts are tagged with this property")
+	}
+	var patterns []string
+	for p := range pkgSet {
+		patterns = append(patterns, p)
+	}
+	sort.Strings(patterns)
+	eng, err := NewEngine(*repo, *verif, patterns)
+	if err != nil {
+		// the tree does not compile: not a property violation
+		return engErr("%v", err)
+	}
+	loadS := time.Since(t0).Seconds()
+
+	// 2. generate VCs
+	var vcs []*VC
+	var mu sync.Mutex
+	var wg sync.WaitGroup
+	var missing []string
+	sem := make(chan struct{}, 8)
+	for _, t := range targets {
+		fn := eng.findFunc(t)
+		if fn == nil {
+			missing = append(missing, specKey(t.Pkg, t.Name))
+			continue
+		}
+		wg.Add(1)
+		go func(t *FuncSpec, fn *ssa.Function) {
+			defer wg.Done()
+			sem <- struct{}{}
+			defer func() { <-sem }()
+			vc := newVC(eng, fn, t)
+			func() {
+				defer func() {
+					if r := recover(); r != nil {
+						vc.fatalf("generator panic: %v", r)
+					}
+				}()
+				vc.verifyFunction()
+			}()
+			mu.Lock()
+			vcs = append(vcs, vc)
+			mu.Unlock()
+		}(t, fn)
+	}
+	for _, l := range lemmas {
+		vc := newVC(eng, nil, nil)
+		vc.verifyLemma(l)
+		vcs = append(vcs, vc)
+	}
+	wg.Wait()
+	sort.Slice(vcs, func(i, j int) bool { return vcs[i].fnName() < vcs[j].fnName() })
+	genS := time.Since(t0).Seconds() - loadS
+
+	// 3. solve
+	tmp, err := os.MkdirTemp("/var/tmp", "govc-")
+	if err != nil {
+		return engErr("tmp dir: %v", err)
+	}
+	defer os.RemoveAll(tmp)
+	var items []*solveItem
+	for _, vc := range vcs {
+		for _, o := range vc.obls {
+			if *only != "" && !strings.Contains(o.Name, *only) {
+				continue
+			}
+			items = append(items, &solveItem{vc: vc, o: o, idx: len(items)})
+		}
+	}
+	if *dump != "" {
+		os.MkdirAll(*dump, 0o755)
+		for _, it := range items {
+			os.WriteFile(filepath.Join(*dump, sanitize(it.o.Name)+".smt2"), []byte(it.vc.query(it.o)), 0o644)
+		}
+	}
+	solveAll(items, tmp, timeoutS, 5, *tier == "thorough")
+	solveS := time.Since(t0).Seconds() - loadS - genS
+
+	// 4. verdicts
+	var kf KnownFindings
+	if data, err := os.ReadFile(filepath.Join(*verif, "known_findings.json")); err == nil {
+		if err := json.Unmarshal(data, &kf); err != nil {
+			return engErr("known_findings.json: %v", err)
+		}
+	}
+	kfByObl := map[string]*KnownFinding{}
+	for i := range kf.Findings {
+		f := &kf.Findings[i]
+		if f.Property == *prop && f.Status == "open" {
+			kfByObl[f.Obligation] = f
+		}
+	}
+	type viol struct {
+		o   *Obligation
+		why string
+		it  *solveItem
+	}
+	var viols []viol
+	var kfLines []string
+	nObl, nDis, nCover, nCoverSat := 0, 0, 0, 0
+	solverTime := map[string]float64{}
+	winners := map[string]int{}
+	var samples []map[string]any
+	var slow []string
+	disagreements := 0
+	perFn := map[string]*fnReport{}
+	kfSeen := map[string]bool{}
+	for _, it := range items {
+		o := it.o
+		for s, t := range it.times {
+			solverTime[s] += t
+		}
+		if *tier == "thorough" {
+			hasSat, hasUnsat := false, false
+			for _, r := range it.all {
+				if r == "sat" {
+					hasSat = true
+				}
+				if r == "unsat" {
+					hasUnsat = true
+				}
+			}
+			if hasSat && hasUnsat {
+				disagreements++
+			}
+		}
+		fr := perFn[o.Fn]
+		if fr == nil {
+			fr = &fnReport{Name: o.Fn}
+			perFn[o.Fn] = fr
+		}
+		if o.Vacuity {
+			nCover++
+			switch o.Result {
+			case "sat":
+				nCoverSat++
+			case "unsat":
+				viols = append(viols, viol{o, "vacuity: " + o.Name + " is unreachable/contradictory (cover query unsat)", it})
+			}
+			continue
+		}
+		if k, ok := kfByObl[o.Name]; ok {
+			kfSeen[o.Name] = true
+			if o.Result != "unsat" {
+				kfLines = append(kfLines, fmt.Sprintf("KNOWN-FINDING: property=%s %s [%s: %s]", *prop, k.WhatFails, o.Name, o.Result))
+			}
+			continue
+		}
+		nObl++
+		fr.Obligs++
+		if o.Result == "unsat" {
+			nDis++
+			fr.Discharged++
+			winners[o.Solver]++
+			if o.TimeS > float64(timeoutS)/2 {
+				slow = append(slow, fmt.Sprintf("%s %.1fs", o.Name, o.TimeS))
+			}
+			if len(samples) < 6 {
+				samples = append(samples, map[string]any{"obligation": o.Name, "kind": o.Kind, "clause": o.Src, "smt_bytes": o.Size, "solver": o.Solver, "time_s": round3(o.TimeS), "result": o.Result})
+			}
+		} else {
+			viols = append(viols, viol{o, "obligation not discharged: " + o.Result, it})
+		}
+	}
+	for name := range kfByObl {
+		if !kfSeen[name] && *only == "" {
+			viols = append(viols, viol{&Obligation{Name: name, Result: "missing"}, "known-finding obligation no longer generated (contract or function removed?)", nil})
+		}
+	}
+	var fatalFns []string
+	trusted := map[string]bool{}
+	assumptions := map[string]bool{}
+	var fnReports []*fnReport
+	for _, vc := range vcs {
+		fr := perFn[vc.fnName()]
+		if fr == nil {
+			fr = &fnReport{Name: vc.fnName()}
+			perFn[vc.fnName()] = fr
+		}
+		fr.Fatal = vc.fatal
+		for k := range vc.inlined {
+			fr.Inlined = append(fr.Inlined, k)
+		}
+		for k := range vc.opaque {
+			fr.Opaque = append(fr.Opaque, k)
+		}
+		for k := range vc.uses {
+			fr.Uses = append(fr.Uses, k)
+			if !strings.HasPrefix(k, "func ") {
+				trusted[k] = true
+			}
+		}
+		sort.Strings(fr.Inlined)
+		sort.Strings(fr.Opaque)
+		sort.Strings(fr.Uses)
+		for _, n := range vc.notes {
+			assumptions[n] = true
+		}
+		for k := range vc.opaque {
+			assumptions["opaque call: "+k] = true
+		}
+		if len(vc.fatal) > 0 {
+			fatalFns = append(fatalFns, vc.fnName()+": "+strings.Join(vc.fatal, "; "))
+		}
+		fnReports = append(fnReports, fr)
+	}
+	for _, m := range missing {
+		fatalFns = append(fatalFns, m+": function under contract not found in the tree")
+	}
+	sort.Slice(fnReports, func(i, j int) bool { return fnReports[i].Name < fnReports[j].Name })
+
+	// 5. report
+	exit := 0
+	os.MkdirAll(filepath.Join(*verif, "replays", *prop), 0o755)
+	for _, l := range kfLines {
+		fmt.Println(l)
+	}
+	for _, f := range fatalFns {
+		// A function that left the verifiable subset (or disappeared) makes the property undecided -> reported.
+		path := filepath.Join(*verif, "replays", *prop, "outside_subset.json")
+		writeJSON(path, map[string]any{"property": *prop, "problem": f, "note": "the function under contract can no longer be verified; its obligations are undischarged"})
+		fmt.Printf("VIOLATION property=%s replay=%s %s no-failing-input-found\n", *prop, path, f)
+		exit = 1
+	}
+	for _, v := range viols {
+		path := filepath.Join(*verif, "replays", *prop, sanitize(v.o.Name)+".json")
+		rec := map[string]any{"property": *prop, "obligation": v.o.Name, "function": v.o.Fn, "kind": v.o.Kind, "clause": v.o.Src, "why": v.why,
+			"source_position": v.o.Pos.String(), "solver_result": v.o.Result, "solver": v.o.Solver, "solver_output": truncate(v.o.Model, 20000)}
+		if v.it != nil {
+			rec["per_solver"] = v.it.all
+		}
+		suffix := " no-failing-input-found"
+		if v.o.Result == "sat" && v.it != nil {
+			if rp := tryReplay(eng, *verif, *prop, v.it, rec); rp == "confirmed" {
+				suffix = ""
+			}
+		}
+		writeJSON(path, rec)
+		fmt.Printf("VIOLATION property=%s replay=%s obligation=%s (%s)%s\n", *prop, path, v.o.Name, v.why, suffix)
+		exit = 1
+	}
+	if disagreements > 0 {
+		fmt.Printf("ENGINE-ERROR property=%s %d solver disagreements\n", *prop, disagreements)
+		exit = 2
+	}
+	if nObl == 0 && exit == 0 {
+		return engErr("zero obligations generated")
+	}
+	// 6. evidence
+	var tb []string
+	tb = append(tb, "govc VC generator (this repository's /verif/engine) over go/ssa (x/tools v0.50.0, go1.26.8)", "SMT solvers z3 4.8.12, z3 5.1.0 (z3-new), cvc5 1.0")
+	for k := range trusted {
+		tb = append(tb, "assumed contract: "+k)
+	}
+	sort.Strings(tb[2:])
+	var as []string
+	for k := range assumptions {
+		as = append(as, k)
+	}
+	sort.Strings(as)
+	var fnNames []string
+	for _, fr := range fnReports {
+		fnNames = append(fnNames, fr.Name)
+	}
+	if len(samples) == 0 {
+		samples = append(samples, map[string]any{"note": "no discharged obligation in this run"})
+	}
+	ev := map[string]any{
+		"property_id": *prop, "tier": *tier, "seed": seed, "level": "proof",
+		"coverage": map[string]any{
+			"obligations": nObl, "discharged": nDis,
+			"checker_cmd":              fmt.Sprintf("/verif/bin/govc check -prop %s -tier %s (race of z3-new, z3, cvc5; %ds per obligation)", *prop, *tier, timeoutS),
+			"trusted_base":             tb,
+			"functions_under_contract": fnNames,
+			"per_function":             fnReports,
+			"samples":                  samples,
+			"winner_counts":            winners,
+			"solver_time_s":            roundMap(solverTime),
+			"vacuity":                  map[string]int{"cover_queries": nCover, "cover_sat": nCoverSat},
+			"known_findings_reported":  kfLines,
+			"slow_obligations":         slow,
+			"lemmas":                   len(lemmas),
+			"phases_s":                 map[string]float64{"load": round3(loadS), "generate": round3(genS), "solve": round3(solveS)},
+		},
+		"assumptions": as,
+		"wall_s":      round3(time.Since(t0).Seconds()),
+		"violations":  len(viols) + len(fatalFns),
+	}
+	if !*noEvidence {
+		os.MkdirAll(filepath.Join(*verif, "evidence"), 0o755)
+		writeJSON(filepath.Join(*verif, "evidence", *prop+".json"), ev)
+	}
+	if *verbose {
+		for _, it := range items {
+			fmt.Printf("  %-8s %-7s %6.2fs %7dB %s\n", it.o.Result, it.o.Solver, it.o.TimeS, it.o.Size, it.o.Name)
+		}
+		for _, vc := range vcs {
+			for _, f := range vc.fatal {
+				fmt.Printf("  FATAL %s: %s\n", vc.fnName(), f)
+			}
+		}
+	}
+	fmt.Printf("property=%s tier=%s functions=%d obligations=%d discharged=%d covers=%d/%d known_findings=%d violations=%d wall=%.1fs\n",
+		*prop, *tier, len(vcs), nObl, nDis, nCoverSat, nCover, len(kfLines), len(viols)+len(fatalFns), time.Since(t0).Seconds())
+	return exit
+}
+
+func truncate(s string, n int) string {
+	if len(s) > n {
+		return s[:n] + "...(truncated)"
+	}
+	return s
+}
+
+func round3(f float64) float64 { return float64(int(f*1000+0.5)) / 1000 }
+
+func roundMap(m map[string]float64) map[string]float64 {
+	out := map[string]float64{}
+	for k, v := range m {
+		out[k] = round3(v)
+	}
+	return out
+}
+
+func writeJSON(path string, v any) {
+	data, _ := json.MarshalIndent(v, "", " ")
+	os.WriteFile(path, append(data, '\n'), 0o644)
+}
+
+// verifyLemma: a lemma is a closed formula over universally quantified variables.
+func (vc *VC) verifyLemma(l *Lemma) {
+	st := &State{pc: "true", heap: map[string]string{}}
+	vc.comp("$next", "Int")
+	env := &SpecEnv{vc: vc, st: st, old: st, vars: map[string]Val{}}
+	if l.Pkg != "" {
+		env.pkg = vc.eng.pkgByPath(l.Pkg)
+	}
+	for _, v := range l.Vars {
+		t := vc.resolveType(env, v[1])
+		if t == nil {
+			continue
+		}
+		env.vars[v[0]] = vc.freshVal(st, t, "lv."+v[0])
+	}
+	for _, r := range l.Requires {
+		vc.assume(st, vc.trBool(env, r.E))
+	}
+	env.st = st
+	for _, e := range l.Ensures {
+		o := vc.obligeNoAssume(st, fmt.Sprintf("lemma.%s#ensures.%d", l.Name, e.Idx), "lemma", vc.trBool(env, e.E), e.Src, 0)
+		o.Fn = "lemma." + l.Name
+		o.Tag = e.Tag
 	}
 }
